@@ -67,7 +67,7 @@ static std::string decorate(Rng& r, const std::string& name, bool change_case, b
 }
 static std::string near_miss(Rng& r, const std::string& name, const std::vector<Client>& clients) {
   std::string o = name;
-  switch (r.uni(13)) {
+  switch (r.uni(14)) {
     case 0: o.erase(std::remove(o.begin(), o.end(), '_'), o.end()); break;
     case 1: std::replace(o.begin(), o.end(), '_', '-'); break;
     case 2: o += "x"; break;
@@ -79,6 +79,14 @@ static std::string near_miss(Rng& r, const std::string& name, const std::vector<
     case 8: o.insert((size_t)r.uni((int)o.size() + 1), 1, '_'); break;
     case 9: if (!clients.empty() && !clients[0].handles.empty()) o = clients[0].handles[0]; else o = "handle"; break;
     case 10: o = o + o; break;
+    case 12: {  // bytes >= 0x80: a high-bit twin of a letter, a Latin-1 no-break space, a soft hyphen
+      switch (r.uni(3)) {
+        case 0: if (!o.empty()) { size_t i = (size_t)r.uni((int)o.size()); o[i] = (char)((unsigned char)o[i] | 0x80); } break;
+        case 1: o.insert((size_t)r.uni((int)o.size() + 1), 1, (char)0xA0); break;
+        default: o.insert((size_t)r.uni((int)o.size() + 1), 1, (char)0xAD); break;
+      }
+      break;
+    }
     case 11: {  // a catalogue name, a long run of separators, then junk: a fixed-size copy would cut the junk off
       static const int total[] = {40, 64, 65, 128, 129, 256, 300};
       size_t want = (size_t)total[r.uni(7)];
@@ -104,6 +112,7 @@ static int pick_solution(Rng& r, const std::string& profile) {
     if (profile == "C10" && cached) w[(size_t)i] = 30;
     if (profile == "C10" && cb) w[(size_t)i] = 20;
     if ((profile == "C11" || profile == "C19" || profile == "C17") && vec) w[(size_t)i] = 40;
+    if (profile == "C19" && cached) w[(size_t)i] = 25;  // members that a constructor may leave uninitialised
     if (profile == "C12" && cb) w[(size_t)i] = 20;
     if (profile == "C12" && cached) w[(size_t)i] = 20;  // twins of solutions with cached members: shared state shows
     if (nm == "navierstokes_4d_compressible_powerlaw" && profile != "C11" && profile != "C14") w[(size_t)i] = 4;  // 205 parameters: slow
@@ -151,12 +160,19 @@ static Step gen_op(Rng& r, const Profile& P, int client, int nh, const Plan& pla
   if (s.op == OP_INIT_UNKNOWN) s.s = near_miss(r, g_sols[(size_t)r.uni((int)g_sols.size())].name, plan.clients);
   if (allow_nested && (s.op == OP_EVAL_SUP || s.op == OP_EVAL || s.op == OP_PASS_FUNC) && plan.clients.size() > 1 && r.bern(s.op == OP_PASS_FUNC ? 0.9 : 0.4)) {
     int nn = r.range(1, 2);
+    bool pair = r.bern(0.35);  // "the callback looks something up on another handle": select it, evaluate there
+    if (pair) nn = 2;
     for (int i = 0; i < nn; ++i) {
       int oc = r.uni((int)plan.clients.size() - 1);
       if (oc >= client) ++oc;
-      static const int nops[] = {OP_SELECT, OP_SELECT, OP_SET, OP_SET, OP_GET, OP_INIT, OP_LIST, OP_SET_VEC, OP_PURGE, OP_INIT_PARAM, OP_GET_NAME, OP_SELECT_UNKNOWN};
+      static const int nops[] = {OP_SELECT, OP_SELECT, OP_SET, OP_SET, OP_GET, OP_INIT, OP_LIST, OP_SET_VEC, OP_PURGE, OP_INIT_PARAM, OP_GET_NAME, OP_SELECT_UNKNOWN,
+                                 OP_EVAL_SUP, OP_EVAL_SUP, OP_EVAL_SUP, OP_EVAL_UNSUP};
       Step n = gen_op(r, P, oc, (int)plan.clients[(size_t)oc].handles.size(), plan, false);
-      n.op = nops[r.uni(12)];
+      n.op = nops[r.uni(16)];
+      if (pair) {
+        n.op = i == 0 ? OP_SELECT : OP_EVAL_SUP;
+        if (i == 1) oc = s.nested[0].client, n.h = s.nested[0].h;
+      }
       n.client = oc;
       n.nested.clear();
       if (n.op == OP_SET) n.b = r.bern(0.75) ? 0 : 1;
